@@ -417,10 +417,22 @@ func (c *pCase) release(idx int, dirty bool) {
 	c.settle()
 }
 
-func (c *pCase) run() {
-	rt := c.rt
+func newPCase(rt *rapid.T) *pCase {
+	return &pCase{
+		rt: rt, labels: map[string]bool{},
+		stored: map[string][]int64{}, present: map[string]bool{}, applied: map[string][]int64{},
+		dirtied: map[string]bool{}, tainted: map[string]bool{}, writes: map[string]int{},
+	}
+}
+
+func (c *pCase) newStore() {
 	c.iscc = &fakeISCC{}
 	c.store = re_blobstore.NewBlobAccessMutableProtoStore[iscc.PreviousExecutionStats](c.iscc, 1<<20)
+}
+
+func (c *pCase) run() {
+	rt := c.rt
+	c.newStore()
 	// A queued handle is only written by a Get for another digest, so one
 	// digest alone is the rare case.
 	c.digests = []string{"A", "B", "C"}[:rapid.SampledFrom([]int{2, 3, 2, 3, 2, 1}).Draw(rt, "nDigests")]
@@ -575,9 +587,23 @@ func (c *pCase) run() {
 		},
 	})
 
-	// Drain. Storage is healthy from here on: let every outstanding call
-	// finish, hand back every handle, then keep calling Get on an unrelated
-	// digest, which is what pumps the write-back queue.
+	c.drainAndCheck()
+	switch {
+	case c.maxUpdates >= 3:
+		c.label("updates>=3")
+	case c.maxUpdates >= 1:
+		c.label("updates:1-2")
+	default:
+		c.label("updates:0")
+	}
+}
+
+// drainAndCheck ends a case. Storage is healthy from here on: every
+// outstanding call finishes, every handle is handed back, then Get is
+// called on an unrelated digest until nothing is written any more (that is
+// what pumps the write-back queue). Finally the contents of the cache are
+// compared with the updates that were applied.
+func (c *pCase) drainAndCheck() {
 	c.add("drain", "", "")
 	c.draining = true
 	for len(c.parked) > 0 {
@@ -609,8 +635,20 @@ func (c *pCase) run() {
 		}
 	}
 
-	// Oracle: what the cache finally holds.
+	// Oracle: what the cache finally holds, for every digest touched.
+	seen := map[string]bool{}
+	var digests []string
 	for _, d := range c.digests {
+		seen[d] = true
+		digests = append(digests, d)
+	}
+	for d := range c.applied {
+		if !seen[d] {
+			digests = append(digests, d)
+		}
+	}
+	sort.Strings(digests)
+	for _, d := range digests {
 		got, want := c.stored[d], c.applied[d]
 		if !c.dirtied[d] {
 			continue // no write was allowed at all (checked when parked)
@@ -638,14 +676,6 @@ func (c *pCase) run() {
 		if fmt.Sprint(got) != fmt.Sprint(want) {
 			c.failf("after draining, the cache holds %v for %s, but the updates applied were %v: an update was lost or overwritten by an older message", got, d, want)
 		}
-	}
-	switch {
-	case c.maxUpdates >= 3:
-		c.label("updates>=3")
-	case c.maxUpdates >= 1:
-		c.label("updates:1-2")
-	default:
-		c.label("updates:0")
 	}
 }
 
@@ -699,11 +729,7 @@ func TestC07StatsPersistence(t *testing.T) {
 	// Register the store's metrics outside of any bubble.
 	re_blobstore.NewBlobAccessMutableProtoStore[iscc.PreviousExecutionStats](&fakeISCC{}, 1)
 	rapid.Check(t, func(rt *rapid.T) {
-		c := &pCase{
-			rt: rt, labels: map[string]bool{},
-			stored: map[string][]int64{}, present: map[string]bool{}, applied: map[string][]int64{},
-			dirtied: map[string]bool{}, tainted: map[string]bool{}, writes: map[string]int{},
-		}
+		c := newPCase(rt)
 		runInBubble(t, rt, func() []step { return c.script }, c.run)
 		labels := make([]string, 0, len(c.labels))
 		for l := range c.labels {
